@@ -12,7 +12,7 @@ from harness.common import ImplRaised, drv, impl, run_check
 
 PID = "C02"
 THEOREMS = ["rlencodeChunked_eq", "runStartsFrom_append", "fillIdx_spec", "indexPixels_spec", "indexPixels_chunked_spec",
-            "writePixels_concat", "create_valid", "create_zero_chunks", "countIndex_eq_csrIndex"]
+            "writePixels_concat", "create_valid", "create_zero_chunks", "countIndex_eq_csrIndex", "merge_valid", "unordered_valid"]
 LEVELS = {"history": "top", "rlencode": "unit", "index": "unit", "bigindex": "top", "cli_load": "top"}
 DESCRIBE = {
     "history": "a seeded history of producing operations (create ordered/unordered, merge, coarsen, zoomify, scool, append to one file); "
